@@ -121,6 +121,10 @@ class CreateHeader:
                 and set(map(str, extracted(result).spdx_expressions)) == set(map(str, want_l)))
 
 
+line_starts = ufun("line_starts", ["str"], "list[int]")
+comment_at = ufun("comment_at", ["Style", "str"], "str")          # what the style's comment finder returns (domain model)
+
+
 @contract("reuse.header._indices_of_newlines", serves=["C08"], assumed=True,
           why="start offsets of the lines of the text (a while loop around a compiled pattern's search(text, pos))")
 class IndicesOfNewlines:
@@ -128,7 +132,8 @@ class IndicesOfNewlines:
     pure = True
 
     def post(text, result):
-        return forall(lambda j: implies(0 <= j and j < len(result), 0 <= result[j] and result[j] <= len(text)), "int")
+        return (result == line_starts(text)
+                and forall(lambda j: implies(0 <= j and j < len(result), 0 <= result[j] and result[j] <= len(text)), "int"))
 
 
 @contract("reuse.extract.contains_reuse_info", serves=["C08", "C10", "C11"], assumed=True, why="pure function of the text (C02)")
@@ -146,6 +151,11 @@ class FindFirstSpdxComment:
         # C08: the three sections are a partition of the text - nothing is dropped, duplicated or reordered (when the block
         # is the very end of a text without final newline, the middle section carries the newline the text lacks)
         whole = result.before + result.middle + result.after
-        return (whole == text or whole == text + "\n") and result.middle.endswith("\n") and text.startswith(result.before)
+        st = python_style() if style is None else style
+        return ((whole == text or whole == text + "\n") and result.middle.endswith("\n") and text.startswith(result.before)
+                # ... and the cut is where the block was found: at the start of a line, and the middle section is the block
+                # the style's comment finder returns there (not some other occurrence of the same text)
+                and exists(lambda j: 0 <= j and j < len(line_starts(text)) and line_starts(text)[j] == len(result.before)
+                           and result.middle == comment_at(st, text[line_starts(text)[j]:]) + "\n", "int"))
 
     loops = {0: LoopSpec(inv=lambda text: True)}
